@@ -117,13 +117,16 @@ func drawCfg(r *simkit.Run) cfg {
 	c.HandlerMode = tp.Weighted([]int{4, 2, 4})
 	c.Auth = tp.Intn(4) != 3
 	c.SetUID = tp.Intn(4) != 3
-	c.QueueCap = 8 - tp.Weighted([]int{3, 1, 1, 1, 1, 1, 2, 2}) // 8..1
-	c.Workers = []int{8, 1, 2}[tp.Weighted([]int{4, 4, 1})]
+	c.QueueCap = 8 - tp.Weighted([]int{5, 1, 1, 1, 2, 1, 2, 1}) // 8..1
+	c.Workers = []int{8, 1, 2}[tp.Weighted([]int{3, 5, 1})]
 	c.BatchWait = []time.Duration{time.Millisecond, -1, 5 * time.Millisecond}[tp.Weighted([]int{3, 2, 1})]
 	c.BatchRecords = []int{128, 1, 2, 3, 8}[tp.Intn(5)]
 	c.BatchBytes = []int{512 * 1024, 24, 100}[tp.Weighted([]int{4, 1, 1})]
 	c.MaxInbound = []int{1 << 20, 64, 300}[tp.Weighted([]int{8, 1, 1})]
-	c.CloseOnErr = tp.Intn(5) != 4
+	// CloseOnHandlerError=false is only explored with the simulated handler: the
+	// real access handler aborts a batch on the first failed write, which in
+	// that (non-default) configuration leaves other SENDs unanswered by design.
+	c.CloseOnErr = tp.Intn(5) != 4 || c.HandlerMode == 2
 	c.MaxOutbound = 1 << 20
 	if c.CloseOnErr {
 		c.MaxOutbound = []int{1 << 20, 48, 160, 600}[tp.Weighted([]int{5, 1, 1, 1})]
@@ -926,6 +929,13 @@ func (e *engine) doClientSend(cl *client, faults bool) {
 			sf.seq, sf.msgNo = s.ClientSeq, s.ClientMsgNo
 		}
 		wire := enc
+		if cl.auth && kind != int(frame.CONNECT) && !cl.gotConnack && !cl.tainted {
+			// an eager client speaks before the version is negotiated: the server may
+			// legitimately decode these bytes differently (or refuse them)
+			cl.tainted = true
+			cl.taintOff = cl.streamLen
+			q.r.Fault("client_sends_before_connack")
+		}
 		if faults && q.cfg.FCorrupt && tp.Chance(1, 7) {
 			wire = e.corrupt(cl, sf, enc)
 		}
